@@ -147,6 +147,9 @@ pub struct Injected {
 pub trait Monitor {
     fn on_arm(&mut self, rec: &ArmRecord, inj: &[Injected], sim: &Sim, rep: &mut Report);
     fn finish(&mut self, _inj: &[Injected], _sim: &Sim, _rep: &mut Report) {}
+    /// Called once the session is established and the initial state (e.g. a stamped
+    /// window vector) is in place, before the first tick of the main loop.
+    fn on_stream_start(&mut self, _sim: &Sim) {}
 }
 
 #[derive(Clone, Copy, Debug, PartialEq, Eq)]
@@ -438,6 +441,9 @@ pub fn run_stream(opts: StreamOpts, rng: &mut Rng, mons: &mut [&mut dyn Monitor]
         }
     }
     d.rxm.loss_permille = opts.loss_permille;
+    for m in mons.iter_mut() {
+        m.on_stream_start(&d.sim);
+    }
     let timeout = opts.cfg.conn_timeout_ms;
     // per-ms packet rate phases (1316-byte packets): ~100 kbit/s, 2 Mbit/s, 8 Mbit/s, 20 Mbit/s
     let rates = [0.01f64, 0.2, 0.8, 2.0];
